@@ -59,7 +59,7 @@ theorem pfx_list (pr : Prec) (items : List Expr) (h : items.all literalOfExpr = 
 
 /-! ### paths, selectors, arguments: the statements -/
 
-def SegsOK (pr : Prec) (q : List Seg) : Prop :=
+def PSegsOK (pr : Prec) (q : List Seg) : Prop :=
   ∀ fuel rest, follow rest = true → 4 * (ptoksSegs q).length + 1 ≤ fuel →
     parsePath pr fuel (ptoksSegs q ++ rest) = .ok (normSegs q, rest)
 
@@ -73,29 +73,29 @@ def selEnd : List Tok → Bool
   | .rbracket :: _ => true
   | _ => false
 
-def SelOK (pr : Prec) (s : Sel) : Prop :=
+def PSelOK (pr : Prec) (s : Sel) : Prop :=
   ∀ fuel rest, selEnd rest = true → 4 * (ptoksSel s).length ≤ fuel →
     parseSelItem pr fuel (ptoksSel s ++ rest) = .ok (normSel s, rest)
 
-def SelsOK (pr : Prec) (ss : List Sel) : Prop :=
+def PSelsOK (pr : Prec) (ss : List Sel) : Prop :=
   ∀ fuel rest, 4 * ((ptoksSels ss).length + 1) ≤ fuel →
     parseSelList pr fuel (ptoksSels ss ++ .rbracket :: rest) = .ok (normSels ss, rest)
 
-theorem pfx_self (pr : Prec) (q : List Seg) (h : SegsOK pr q) : PfxOK pr (ptoksE (.self q)) (normE (.self q)) := by
+theorem pfx_self (pr : Prec) (q : List Seg) (h : PSegsOK pr q) : PfxOK pr (ptoksE (.self q)) (normE (.self q)) := by
   intro fuel rest hf hfuel
   simp only [ptoksE, List.length_cons] at hfuel
   obtain ⟨f, rfl⟩ : ∃ f, fuel = f + 1 := ⟨fuel - 1, by omega⟩
   simp only [ptoksE, normE, List.cons_append]
   exact prefix_self pr f _ rest _ (h f rest hf (by omega))
 
-theorem pfx_ctx (pr : Prec) (q : List Seg) (h : SegsOK pr q) : PfxOK pr (ptoksE (.ctx q)) (normE (.ctx q)) := by
+theorem pfx_ctx (pr : Prec) (q : List Seg) (h : PSegsOK pr q) : PfxOK pr (ptoksE (.ctx q)) (normE (.ctx q)) := by
   intro fuel rest hf hfuel
   simp only [ptoksE, List.length_cons] at hfuel
   obtain ⟨f, rfl⟩ : ∃ f, fuel = f + 1 := ⟨fuel - 1, by omega⟩
   simp only [ptoksE, normE, List.cons_append]
   exact prefix_ctx pr f _ rest _ (h f rest hf (by omega))
 
-theorem pfx_root (pr : Prec) (q : List Seg) (fake : Bool) (h : SegsOK pr q) :
+theorem pfx_root (pr : Prec) (q : List Seg) (fake : Bool) (h : PSegsOK pr q) :
     PfxOK pr (ptoksE (.root q fake)) (normE (.root q fake)) := by
   intro fuel rest hf hfuel
   simp only [ptoksE, List.length_cons] at hfuel
@@ -181,7 +181,7 @@ theorem stopAt_of_selEnd (pr : Prec) (p : Nat) (rest : List Tok) (h : selEnd res
   | nil => trivial
   | cons t r => cases t <;> first | trivial | (simp [selEnd] at h)
 
-theorem SelOK.filter (pr : Prec) (hp : PrecFacts pr) (e : Expr) (h : AllOK pr e) : SelOK pr (.filter e) := by
+theorem PSelOK.filter (pr : Prec) (hp : PrecFacts pr) (e : Expr) (h : AllOK pr e) : PSelOK pr (.filter e) := by
   intro fuel rest he hfuel
   simp only [ptoksSel, List.length_cons] at hfuel
   obtain ⟨f, rfl⟩ : ∃ f, fuel = f + 1 := ⟨fuel - 1, by omega⟩
@@ -192,7 +192,7 @@ theorem SelOK.filter (pr : Prec) (hp : PrecFacts pr) (e : Expr) (h : AllOK pr e)
     (by rw [lvlP_lt3 pr 1 (by omega)]; exact this) (stopAt_of_selEnd pr _ rest he)
     (stopAt_of_selEnd pr _ rest he) (by omega)
 
-theorem SelOK.other (pr : Prec) (s : Sel) (h : ∀ e, s ≠ .filter e) : SelOK pr s := by
+theorem PSelOK.other (pr : Prec) (s : Sel) (h : ∀ e, s ≠ .filter e) : PSelOK pr s := by
   intro fuel rest _ hfuel
   cases s <;> simp only [ptoksSel, List.length_cons, List.length_nil] at hfuel
   case filter e => exact absurd rfl (h e)
@@ -210,15 +210,15 @@ theorem selEnd_notRb_sels (s : Sel) (ss : List Sel) (rest : List Tok) :
   | nil => simp only [ptoksSels]; exact h _
   | cons s' ss => simp only [ptoksSels, List.append_assoc]; exact h _
 
-theorem SelsOK.single (pr : Prec) (s : Sel) (h : SelOK pr s) : SelsOK pr [s] := by
+theorem PSelsOK.single (pr : Prec) (s : Sel) (h : PSelOK pr s) : PSelsOK pr [s] := by
   intro fuel rest hfuel
   simp only [ptoksSels] at hfuel
   obtain ⟨f, rfl⟩ : ∃ f, fuel = f + 1 := ⟨fuel - 1, by omega⟩
   simp only [ptoksSels, normSels]
   exact selList_single pr f _ rest _ (h f (.rbracket :: rest) rfl (by omega))
 
-theorem SelsOK.cons (pr : Prec) (s s' : Sel) (ss : List Sel) (h : SelOK pr s) (ih : SelsOK pr (s' :: ss)) :
-    SelsOK pr (s :: s' :: ss) := by
+theorem PSelsOK.cons (pr : Prec) (s s' : Sel) (ss : List Sel) (h : PSelOK pr s) (ih : PSelsOK pr (s' :: ss)) :
+    PSelsOK pr (s :: s' :: ss) := by
   intro fuel rest hfuel
   simp only [ptoksSels, List.length_append, List.length_cons, List.length_nil] at hfuel
   obtain ⟨f, rfl⟩ : ∃ f, fuel = f + 1 := ⟨fuel - 1, by omega⟩
@@ -231,21 +231,21 @@ theorem SelsOK.cons (pr : Prec) (s s' : Sel) (ss : List Sel) (h : SelOK pr s) (i
 
 /-! ### segments -/
 
-theorem SegsOK.nil (pr : Prec) : SegsOK pr [] := by
+theorem PSegsOK.nil (pr : Prec) : PSegsOK pr [] := by
   intro fuel rest hf hfuel
   obtain ⟨f, rfl⟩ : ∃ f, fuel = f + 1 := ⟨fuel - 1, by omega⟩
   simp only [ptoksSegs, normSegs, List.nil_append]
   exact path_stop pr f rest hf
 
-theorem SegsOK.desc (pr : Prec) (q : List Seg) (h : SegsOK pr q) : SegsOK pr (.desc :: q) := by
+theorem PSegsOK.desc (pr : Prec) (q : List Seg) (h : PSegsOK pr q) : PSegsOK pr (.desc :: q) := by
   intro fuel rest hf hfuel
   simp only [ptoksSegs, List.length_cons] at hfuel
   obtain ⟨f, rfl⟩ : ∃ f, fuel = f + 1 := ⟨fuel - 1, by omega⟩
   simp only [ptoksSegs, normSegs, List.cons_append]
   exact path_ddot pr f _ rest _ (h f rest hf (by omega))
 
-theorem SegsOK.child (pr : Prec) (sels : List Sel) (q : List Seg) (hs : SelsOK pr sels) (h : SegsOK pr q) :
-    SegsOK pr (.child sels :: q) := by
+theorem PSegsOK.child (pr : Prec) (sels : List Sel) (q : List Seg) (hs : PSelsOK pr sels) (h : PSegsOK pr q) :
+    PSegsOK pr (.child sels :: q) := by
   intro fuel rest hf hfuel
   simp only [ptoksSegs, List.length_append, List.length_cons, List.length_nil] at hfuel
   obtain ⟨f, rfl⟩ : ∃ f, fuel = f + 1 := ⟨fuel - 1, by omega⟩
